@@ -186,6 +186,8 @@ class Ctx:
                     zn = unwrap(n)
                     if isinstance(zn, int):
                         zn = z3.IntVal(zn)
+                    if not z3.is_expr(zn):
+                        raise Unsupported(f"universal fact '{fa.get('name')}' over a non-integer extent {zn!r}")
                     pool = [u for u, e in terms if e is None or e.eq(zn)]
                     if z3.is_int_value(zn) and zn.as_long() <= 4:
                         # small concrete extents are instantiated exhaustively
